@@ -174,7 +174,7 @@ func runScenario(sc *scenario, tr *hx.Trace, work string, r *hx.Rng) {
 	defer os.RemoveAll(filepath.Join(work, fmt.Sprintf("h%dB", sc.id)))
 
 	api := &replicaAPI{}
-	ln, err := net.Listen("tcp", "127.0.0.1:0")
+	ln, err := hx.Listen()
 	if err != nil {
 		hx.Fatal("%v", err)
 	}
